@@ -591,6 +591,10 @@ class ExecExpr(ExecCore):
     def binop(self, st, op, a, b, node):
         ta, tb = Ty.strip_opt(a.ty), Ty.strip_opt(b.ty)
         num = (Ty.TInt, Ty.TBool)
+        if isinstance(ta, num) and isinstance(tb, num) and a.has_py and b.has_py and \
+                isinstance(op, (ast.Add, ast.Sub, ast.Mult)):
+            r = {ast.Add: a.py + b.py, ast.Sub: a.py - b.py, ast.Mult: a.py * b.py}[type(op)]
+            return [(st, const_sv(int(r)))], []
         if isinstance(ta, num) and isinstance(tb, num):
             x, y = int_of(a), int_of(b)
             if isinstance(op, ast.Add):
@@ -639,23 +643,45 @@ class ExecExpr(ExecCore):
             except Exception:
                 pass
         if fmt.has_py:
-            pieces = fmt.py.split('%s')
-            aty = Ty.strip_opt(arg.ty)
-            args = None
-            if isinstance(aty, Ty.TTuple):
-                args = [SV(st.L[va(arg.term)][i], t) for i, t in enumerate(aty.ts)]
-            elif not isinstance(aty, (Ty.TDict,)):
-                args = [arg]
-            if args is not None and len(pieces) == len(args) + 1 and '%' not in ''.join(pieces) and \
-                    all(isinstance(x.ty, Ty.TStr) for x in args):
-                parts = []
-                for i, p in enumerate(pieces):
-                    if p:
-                        parts.append(z3.StringVal(p))
-                    if i < len(args):
-                        parts.append(str_of(args[i]))
-                s = parts[0] if len(parts) == 1 else z3.Concat(*parts)
-                return SV(VStr(s), Ty.STR)
+            import re as _re
+            specs = _re.findall(r'%[sd%]', fmt.py)
+            if _re.sub(r'%[sd%]', '', fmt.py).count('%') == 0:
+                aty = Ty.strip_opt(arg.ty)
+                if isinstance(aty, Ty.TTuple):
+                    if arg.has_py is False and ('elems', str(arg.term)) in st.notes:
+                        args = st.notes[('elems', str(arg.term))]
+                    else:
+                        args = [SV(st.L[va(arg.term)][i], t) for i, t in enumerate(aty.ts)]
+                elif isinstance(aty, Ty.TDict):
+                    args = None
+                else:
+                    args = [arg]
+                nspec = len([x for x in specs if x != '%%'])
+                if args is not None and nspec == len(args):
+                    parts, ai, ok = [], 0, True
+                    for piece in _re.split(r'(%[sd%])', fmt.py):
+                        if piece == '%%':
+                            parts.append('%')
+                        elif piece in ('%s', '%d'):
+                            x = args[ai]
+                            ai += 1
+                            if x.has_py and isinstance(x.py, (str, int)) and not isinstance(x.py, bool):
+                                parts.append(str(x.py))
+                            elif piece == '%s' and isinstance(x.ty, Ty.TStr):
+                                parts.append(str_of(x))
+                            elif isinstance(x.ty, Ty.TInt):
+                                i_ = vi(x.term)
+                                parts.append(z3.If(i_ >= 0, z3.IntToStr(i_), z3.Concat(z3.StringVal('-'), z3.IntToStr(-i_))))
+                            else:
+                                ok = False
+                                break
+                        elif piece:
+                            parts.append(piece)
+                    if ok:
+                        if all(isinstance(x, str) for x in parts):
+                            return const_sv(''.join(parts))
+                        zs = [z3.StringVal(x) if isinstance(x, str) else x for x in parts]
+                        return SV(VStr(zs[0] if len(zs) == 1 else z3.Concat(*zs)), Ty.STR)
         return SV(VStr(fresh('fmt', StrS)), Ty.STR)
 
     def ex_JoinedStr(self, n, st):
